@@ -22,6 +22,13 @@ out = os.path.join(os.path.dirname(os.path.abspath(__file__)), "benign")
 os.makedirs(out, exist_ok=True)
 assert subprocess.run(["git", "-C", "/repo", "diff", "--quiet"]).returncode == 0, "repo dirty"
 index = {}
+# hand-made patches (multi-file edits, appended helpers) are kept: see benign/index.json entries without a row in B
+try:
+    for k, v in json.load(open(os.path.join(out, "index.json"))).items():
+        if k not in {b[0] for b in B} and os.path.exists(os.path.join(out, k + ".patch")):
+            index[k] = v
+except (OSError, ValueError):
+    pass
 for name, f, old, new, props in B:
     s = open(R + f).read()
     if name == "rename_helper_updatebanks":
